@@ -32,6 +32,8 @@ def chain(node):
 def check_pair(start, end, labels):
     cs, ce = chain(start), chain(end)
     if cs[-1] is not ce[-1]:
+        if isinstance(start, nodes.BoomReprNM):
+            return False  # the WalkError message legitimately shows the two nodes; this class cannot be shown
         # different trees: WalkError, in both directions
         for x, y in ((start, end), (end, start)):
             try:
@@ -79,6 +81,10 @@ def check_pair(start, end, labels):
             raise Violation("downwards-links", ctx)
     if len({id(n) for n in seq}) != len(seq):
         raise Violation("simple-path", ctx)
+    # the documented parameter names can be used as keywords
+    for again in (_WALKER.walk(start=start, end=end), _WALKER.walk(start, end=end), Walker().walk(end=end, start=start)):
+        if not (again[1] is com and refs.same_seq(again[0], up) and refs.same_seq(again[2], down)):
+            raise Violation("keyword-arguments", "%s differs when start/end are passed by keyword" % ctx)
     # mirror image
     rup, rcom, rdown = Walker.walk(end, start)
     if rcom is not com or not refs.same_seq(rup, list(reversed(down))) or not refs.same_seq(rdown, list(reversed(up))):
@@ -120,6 +126,8 @@ def check_case(case, acc):
     cross = case.get("cross")
     if cross is None:
         cross = [(a, b) for a in range(len(tree)) for b in range(len(other))]
+    if case["cls"] == "BoomRepr":
+        cross = []  # the WalkError message shows both nodes; this class cannot be shown
     for a, b in cross:
         for x, y in ((tree[a], other[b]), (other[b], tree[a])):
             try:
@@ -153,7 +161,7 @@ def _enum_cases(max_nodes, index, count):
         if k % count == index:
             size = shapes.shape_size(shape)
             # every enumerated shape is also re-checked after moving its last node under the root's first child and after detaching node 1
-            yield {"shape": forest.to_list(shape), "other": [[], [[]]], "cls": ("Node", "EqNode", "SlotLM", "FalsyNode", "Node", "EqSlotLM", "LenNode", "TupleNameNode", "ListNode", "TupleNode", "Node")[k % 11], "enumerated": True, "mutations": [["move", size - 1, 1], ["detach", 1], ["move", 0, size - 1]] if size >= 3 else []}
+            yield {"shape": forest.to_list(shape), "other": [[], [[]]], "cls": ("Node", "EqNode", "SlotLM", "FalsyNode", "Node", "EqSlotLM", "LenNode", "TupleNameNode", "ListNode", "TupleNode", "BoomRepr")[k % 11], "enumerated": True, "mutations": [["move", size - 1, 1], ["detach", 1], ["move", 0, size - 1]] if size >= 3 else []}
 
 
 @st.composite
@@ -165,7 +173,7 @@ def random_cases(draw):
     idx = st.integers(0, size - 1)
     pairs = draw(st.lists(st.tuples(idx, idx).map(list), min_size=1, max_size=30))
     cross = draw(st.lists(st.tuples(idx, st.integers(0, osize - 1)).map(list), min_size=1, max_size=5))
-    return {"shape": shape, "other": other, "pairs": pairs, "cross": cross, "cls": draw(st.sampled_from(nodes.TREE_CLASSES)), "mutations": draw(strategies.tree_mutations())}
+    return {"shape": shape, "other": other, "pairs": pairs, "cross": cross, "cls": draw(st.sampled_from(nodes.TREE_CLASSES + ["BoomRepr"])), "mutations": draw(strategies.tree_mutations())}
 
 
 def plan(tier, seed):
